@@ -34,6 +34,9 @@ structure St where
   heldId : Option Nat := none
   /-- the held save has written its document and is stopped before its WAL deletions -/
   heldDel : Bool := false
+  /-- the running instance was restored with its background tasks running freely during the replay (`reopenfree`):
+  the model does not know the interleaving, only — by `restore_is_spec` — what every read must return -/
+  free : Bool := false
   /-- number of the directory the running instance works in (a `fresh` reopen moves to a new one) and, for every
   handle, the directory of its document -/
   dir : Nat := 0
@@ -148,9 +151,20 @@ def stepList (st : St) (op : List String) : St × String :=
     | none => (st, "refused")
   | _ => (st, "bad-op")
 
+def stepFree (st : St) (op : List String) : St × String :=
+  match op with
+  | ["get", k] => (st, showAnswer8 (answer (Spec.get st.sp.m (hexOr k))))
+  | ["scan", p] => (st, showScan8 (specScan st.sp.m (hexOr p)))
+  | _ => (st, "ended")
+
 def step (st : St) (ws : List String) : St × String :=
   let (op, hint) := splitHint ws
+  if st.free then stepFree st op else
   match op with
+  | ["reopenfree", id] =>
+    let i := natOr id
+    if !retainedDone st i then (st, "refused") else
+    ({ st with sp := Ckpt.stepSpec st.s st.sp (.openBegin i), free := true }, "opened-free")
   | ["put", k, v] => writeOp st false (hexOr k) (hexOr v) hint
   | ["del", k] => writeOp st true (hexOr k) [] hint
   | ["get", k] =>
